@@ -30,6 +30,7 @@ import (
 	"encoding/json"
 	"fmt"
 	"math"
+	"math/big"
 	"os"
 	"path/filepath"
 	"reflect"
@@ -69,6 +70,35 @@ type Named struct {
 
 func (Named) StateTypeName() string { return "named" }
 
+type Account struct {
+	Owner   string  `json:"owner"`
+	Balance big.Int `json:"balance"`
+}
+
+type PtrJSON struct{ v int }
+
+func (p *PtrJSON) MarshalJSON() ([]byte, error) {
+	return []byte(fmt.Sprintf(`{"wrapped":%d}`, p.v)), nil
+}
+func (p *PtrJSON) UnmarshalJSON(b []byte) error {
+	var d struct {
+		Wrapped *int `json:"wrapped"`
+	}
+	if err := json.Unmarshal(b, &d); err != nil {
+		return err
+	}
+	if d.Wrapped == nil {
+		return fmt.Errorf("PtrJSON: no \"wrapped\" member in %s", b)
+	}
+	p.v = *d.Wrapped
+	return nil
+}
+
+type HolderPJ struct {
+	Name string
+	P    PtrJSON
+}
+
 // PNamed names itself through a pointer receiver.
 type PNamed struct {
 	A int `json:"a"`
@@ -106,6 +136,10 @@ func values() []valueCase {
 		vc[Outer]{"nested-struct-zero(nil pointer, nil slice, nil map)", Outer{}, Outer{Name: "old"}},
 		vc[Outer]{"nested-struct-empty-containers", Outer{L: []Inner{}, M: map[string]Inner{}}, Outer{}},
 		vc[Named]{"self-named-struct", Named{3}, Named{4}},
+		// fields held BY VALUE whose JSON methods have pointer receivers (math/big.Int, a type
+		// of our own): encoding/json uses those methods only if the entity is addressable
+		vc[Account]{"struct-with-by-value-big.Int", Account{Owner: "alice", Balance: *big.NewInt(1234567890123)}, Account{Owner: "bob", Balance: *big.NewInt(-5)}},
+		vc[HolderPJ]{"struct-with-by-value-field-whose-MarshalJSON-has-a-pointer-receiver", HolderPJ{Name: "a", P: PtrJSON{41}}, HolderPJ{Name: "b", P: PtrJSON{42}}},
 		// strings
 		vc[string]{"string-empty", "", "old"},
 		vc[string]{"string-ascii", "plain", ""},
@@ -165,6 +199,7 @@ var keyVals = []string{"k", "a/b", "ключ/☃/\U0001F600", strings.Repeat("01
 	// ESC), DEL, the line separators, a non-printable rune beyond the BMP, and the characters
 	// HTML-safe encoders escape
 	"bel\a/vt\v/soh\x01/nul\x00/esc\x1b[0m/del\x7f/ls\u2028\u2029/tag\U000E0001/<>&\"\\/\t\n\r\b\f"}
+
 const sentinelType, sentinelTx = "sentinel-type", "sentinel-tx"
 
 func typeOf(m *state.ChangeMessage) string {
